@@ -1011,7 +1011,7 @@ func gen(c *harness.C) []harness.Case {
 	type nt struct{ n, t int }
 	cfgs := map[string][]nt{"bls": {{3, 2}, {3, 3}, {4, 3}, {4, 2}, {5, 3}}, "ps": {{3, 2}, {3, 3}}}
 	if c.Thorough() {
-		cfgs = map[string][]nt{"bls": {{3, 2}, {3, 3}, {4, 2}, {4, 3}, {4, 4}}, "ps": {{3, 2}, {3, 3}, {4, 3}}}
+		cfgs = map[string][]nt{"bls": {{3, 2}, {3, 3}, {4, 2}, {4, 3}, {4, 4}, {5, 3}}, "ps": {{3, 2}, {3, 3}, {4, 3}}}
 	}
 	var cases []harness.Case
 	for _, be := range backendsLinked {
